@@ -30,6 +30,19 @@ def collectorMonitor : Nat := 2  -- InMemCollector.monitor
 def stressMonitor : Nat := 3     -- the ticker goroutine StressRelief.Start spawns
 def sentcacheMonitor : Nat := 4  -- cuckooSentCache.monitor (Resize stops the old one, waits, starts a new one)
 
+/-! ## State of the race fixes in /repo
+One flag per finding group (patches `/verif/.cache/C35-fix/N-*.patch`).  When the `fix:` commit N
+lands in /repo, set `fixN` to `true` (and retire the signatures from known_findings.jsonl): the
+discipline of the repaired field and the list of known violations follow from the flags. -/
+def fix1 : Bool := false  -- cuckooSentCache.kept becomes an atomic.Pointer
+def fix2 : Bool := false  -- fileConfig.mainHash / rulesHash compared and read under f.mux
+def fix3 : Bool := false  -- fileConfig.callbacks copied under f.mux before the calls
+def fix4 : Bool := false  -- ConfigWatcher.done created by Start
+def fix5 : Bool := false  -- RedisPubsubPeers.hash becomes an atomic.Uint64
+def fix6 : Bool := false  -- RedisPubsubPeers.callbacks guarded by the new cbMut
+def fix7 : Bool := false  -- SamplerFactory.sharedDynsamplers length read under s.mutex
+def allFixed : Bool := fix1 && fix2 && fix3 && fix4 && fix5 && fix6 && fix7
+
 def disciplines : List (Nat × LDisc) := [
   -- InMemCollector
   (L.«InMemCollector.Config», .initOnly),
@@ -112,7 +125,7 @@ def disciplines : List (Nat × LDisc) := [
   (L.«CuckooTraceChecker.shutdownWG», .atomic),
   -- cuckooSentCache
   (L.«cuckooSentCache.met», .initOnly),
-  (L.«cuckooSentCache.kept», .initOnly),
+  (L.«cuckooSentCache.kept», if fix1 then .atomic else .initOnly),
   (L.«cuckooSentCache.dropped», .initOnly),
   (L.«cuckooSentCache.recentDroppedIDs», .initOnly),
   (L.«cuckooSentCache.cfg», .initOnly),
@@ -183,7 +196,8 @@ def disciplines : List (Nat × LDisc) := [
   (L.«RedisPubsubPeers.Done», .initOnly),
   (L.«RedisPubsubPeers.peers», .initOnly),
   (L.«RedisPubsubPeers.hash», .atomic),
-  (L.«RedisPubsubPeers.callbacks», .initOnly),
+  (L.«RedisPubsubPeers.callbacks», if fix6 then .lock L.«RedisPubsubPeers.cbMut» else .initOnly),
+  (L.«RedisPubsubPeers.cbMut», .atomic),   -- introduced by fix 6 (reserved name until then)
   (L.«RedisPubsubPeers.sub», .initOnly),
   (L.«RedisPubsubPeers.topic», .initOnly),
   -- fileConfig
@@ -281,29 +295,31 @@ def roles : List (Nat × Role) := [
 /-- Accesses of the current tree that violate their field's discipline: each one is a finding
 (signature `C35:race:<field>:<function>:<kind>`), confirmed on the real code by the race-detector
 harness (`harness/cmd/races`). -/
-def knownViolations : List (Nat × Nat × AKind) := [
-  -- Resize (worker goroutine, on reload) replaces c.kept while router goroutines read it through
-  -- ProcessSpanImmediately → CheckSpan / Record
-  (L.«cuckooSentCache.kept», F.«cuckooSentCache.Resize», .write),
-  -- Reload compares the hashes before taking the lock; concurrent Reloads (ticker + pubsub message)
-  (L.«fileConfig.mainHash», F.«fileConfig.Reload», .read),
-  (L.«fileConfig.rulesHash», F.«fileConfig.Reload», .read),
-  -- the /query/configmetadata endpoint reads the hashes without the lock while Reload writes them
-  (L.«fileConfig.mainHash», F.«fileConfig.GetConfigMetadata», .read),
-  (L.«fileConfig.rulesHash», F.«fileConfig.GetConfigMetadata», .read),
-  -- Reload iterates the callback slice without the lock while RegisterReloadCallback appends
-  (L.«fileConfig.callbacks», F.«fileConfig.Reload», .read),
-  -- monitor (own goroutine) creates cw.done; Stop reads it
-  (L.«ConfigWatcher.done», F.«ConfigWatcher.monitor», .write),
-  -- every pubsub message runs listen → checkHash in its own goroutine; the peer report reads it too
-  (L.«RedisPubsubPeers.hash», F.«RedisPubsubPeers.checkHash», .read),
-  (L.«RedisPubsubPeers.hash», F.«RedisPubsubPeers.checkHash», .write),
-  (L.«RedisPubsubPeers.hash», F.«RedisPubsubPeers.Ready$1», .read),
-  -- callbacks are appended (by other components' Start) after the subscription is live
-  (L.«RedisPubsubPeers.callbacks», F.«RedisPubsubPeers.RegisterUpdatedPeersCallback», .write),
-  -- createSampler (worker goroutines) reports len(s.sharedDynsamplers) without the mutex while
-  -- ClearDynsamplers (collector monitor goroutine, on reload) clears the map
-  (L.«SamplerFactory.sharedDynsamplers», F.«SamplerFactory.createSampler», .read)]
+def knownViolations : List (Nat × Nat × AKind) :=
+  -- 1. Resize (worker goroutine, on reload) replaces c.kept while router goroutines read it through
+  --    ProcessSpanImmediately → CheckSpan / Record
+  (if fix1 then [] else [(L.«cuckooSentCache.kept», F.«cuckooSentCache.Resize», .write)]) ++
+  -- 2. Reload compares the hashes before taking the lock (concurrent Reloads: ticker + pubsub message);
+  --    the /query/configmetadata endpoint reads them without the lock while Reload writes them
+  (if fix2 then [] else [
+    (L.«fileConfig.mainHash», F.«fileConfig.Reload», .read),
+    (L.«fileConfig.rulesHash», F.«fileConfig.Reload», .read),
+    (L.«fileConfig.mainHash», F.«fileConfig.GetConfigMetadata», .read),
+    (L.«fileConfig.rulesHash», F.«fileConfig.GetConfigMetadata», .read)]) ++
+  -- 3. Reload iterates the callback slice without the lock while RegisterReloadCallback appends
+  (if fix3 then [] else [(L.«fileConfig.callbacks», F.«fileConfig.Reload», .read)]) ++
+  -- 4. monitor (own goroutine) creates cw.done; Stop reads it
+  (if fix4 then [] else [(L.«ConfigWatcher.done», F.«ConfigWatcher.monitor», .write)]) ++
+  -- 5. every pubsub message runs listen → checkHash in its own goroutine; the peer report reads it too
+  (if fix5 then [] else [
+    (L.«RedisPubsubPeers.hash», F.«RedisPubsubPeers.checkHash», .read),
+    (L.«RedisPubsubPeers.hash», F.«RedisPubsubPeers.checkHash», .write),
+    (L.«RedisPubsubPeers.hash», F.«RedisPubsubPeers.Ready$1», .read)]) ++
+  -- 6. callbacks are appended (by other components' Start) after the subscription is live
+  (if fix6 then [] else [(L.«RedisPubsubPeers.callbacks», F.«RedisPubsubPeers.RegisterUpdatedPeersCallback», .write)]) ++
+  -- 7. createSampler (worker goroutines) reports len(s.sharedDynsamplers) without the mutex while
+  --    ClearDynsamplers (collector monitor goroutine, on reload) clears the map
+  (if fix7 then [] else [(L.«SamplerFactory.sharedDynsamplers», F.«SamplerFactory.createSampler», .read)])
 
 /-- Unresolved selectors that were inspected by hand and are not accesses to a tracked field. -/
 def reviewedUnresolved : List (String × String) := [
